@@ -69,6 +69,12 @@ def run_scenario(item):
         def now_ds():
             return int((time.time() - t_start) * 10)
 
+        def late_events():
+            # ban-list changes that arrived between two steps (the tail of an abandoned transaction) stay in the history
+            d = hook_delta()
+            if d['banned'] or d['unbanned']:
+                recs.append({'ev': 'tick', 't': now_ds(), 'banned': d['banned'], 'unbanned': d['unbanned']})
+
         for st in item['steps']:
             op = st['op']
             if op == 'fault':
@@ -120,7 +126,10 @@ def run_scenario(item):
                         hc.close()
                 except OSError:
                     pass
-                hook_delta()
+                # what the second client's transactions did to the ban list (all replicas banned: the bans are cleared)
+                # belongs to the history like a wait's
+                d = hook_delta()
+                recs.append({'ev': 'tick', 't': now_ds(), 'banned': d['banned'], 'unbanned': d['unbanned']})
             elif op == 'tx_abandon':
                 # the client resets its connection right after sending the statement
                 req = st['a']
@@ -131,7 +140,7 @@ def run_scenario(item):
                     cl.close()
                     cl = Client(w.port, name='T', timeout=8.0)
                     cl.query("SET SERVER ROLE TO '%s'" % req, tagged=False)
-                hook_delta()
+                late_events()
                 t0 = now_ds()
                 mark = w.log.mark()
                 cl.send(W.Q('SELECT 1 ' + cl.tag()))
@@ -161,7 +170,7 @@ def run_scenario(item):
                     cl.close()
                     cl = Client(w.port, name='T', timeout=8.0)
                     cl.query("SET SERVER ROLE TO '%s'" % req, tagged=False)
-                hook_delta()
+                late_events()
                 t0 = now_ds()
                 t_a = time.time()
                 rep = cl.query('SELECT 1', timeout=10.0)
